@@ -17,13 +17,16 @@ import (
 // ConnFaults are the scripted faults of one connection, addressed by stream offsets.
 type ConnFaults struct {
 	// client→server direction
-	C2SStallAt   int64 `json:"c2sStallAt,omitempty"` // bytes at offset >= this never arrive (peer stops reading); -1/0 = off (use C2SStall flag)
-	C2SStall     bool  `json:"c2sStall,omitempty"`   // enables C2SStallAt
-	ResetAt      int64 `json:"resetAt,omitempty"`    // connection reset when the client writes the byte at this offset
-	Reset        bool  `json:"reset,omitempty"`
-	WriteFailAt  int64 `json:"writeFailAt,omitempty"` // client Write returns an error when reaching this offset (short write)
-	WriteFail    bool  `json:"writeFail,omitempty"`
-	WriteFailNth int   `json:"writeFailNth,omitempty"` // the n-th Write call of the client (1-based) fails without accepting anything
+	C2SStallAt  int64 `json:"c2sStallAt,omitempty"` // bytes at offset >= this never arrive (peer stops reading); -1/0 = off (use C2SStall flag)
+	C2SStall    bool  `json:"c2sStall,omitempty"`   // enables C2SStallAt
+	ResetAt     int64 `json:"resetAt,omitempty"`    // connection reset when the client writes the byte at this offset
+	Reset       bool  `json:"reset,omitempty"`
+	WriteFailAt int64 `json:"writeFailAt,omitempty"` // client Write returns an error when reaching this offset (short write)
+	WriteFail   bool  `json:"writeFail,omitempty"`
+	// SetDeadlineFailNth: the n-th SetDeadline call on the client end (1-based) fails (the
+	// descriptor is in a state that accepts no deadline); nothing else is wrong with it
+	SetDeadlineFailNth int `json:"setDeadlineFailNth,omitempty"`
+	WriteFailNth       int `json:"writeFailNth,omitempty"` // the n-th Write call of the client (1-based) fails without accepting anything
 	// server→client direction
 	S2CStallAt int64 `json:"s2cStallAt,omitempty"` // bytes at offset >= this never arrive
 	S2CStall   bool  `json:"s2cStall,omitempty"`
@@ -205,6 +208,8 @@ type Pipe struct {
 	// fault counters (fired, not configured)
 	ResetFired, WriteFailFired bool
 	clientWrites               int
+	SetDeadlineFailFired       bool
+	setDeadlineCalls           int
 }
 
 // End is one endpoint; it implements net.Conn.
@@ -665,6 +670,13 @@ func (e *End) toNs(t time.Time) int64 {
 func (e *End) SetDeadline(t time.Time) error {
 	if e.closed {
 		return opErr("set", net.ErrClosed)
+	}
+	if e.isClient && e.p.f.SetDeadlineFailNth > 0 {
+		e.p.setDeadlineCalls++
+		if e.p.setDeadlineCalls == e.p.f.SetDeadlineFailNth {
+			e.p.SetDeadlineFailFired = true
+			return opErr("set", syscall.EINVAL)
+		}
 	}
 	e.rdl, e.wdl = e.toNs(t), e.toNs(t)
 	return nil
